@@ -13,8 +13,8 @@ ID = "C06"
 EXTRACT = "ExC06"
 TECHNIQUE = "Coq proof (induction over reply lines; rstrip/partition lemmas) about an executable model of write_response/parse_response/Code.matches/command/parse_command, tied to the code by differential correspondence of the extracted model against the real functions under explicit byte segmentations"
 LEVEL_TEXT = (
-    "Theorems C06_decode_encode, C06_mismatch_rejected, C06_mismatch_any_line, C06_matches_spec, C06_command_loop and "
-    "C06_parse_command_build are proved for every 3-digit code, every LF-free line list of any length and content, both "
+    "Theorems C06_decode_encode, C06_mismatch_rejected, C06_mismatch_any_line, C06_matches_spec, C06_command_loop, "
+    "C06_decode_sequence, C06_command_then_command and C06_parse_command_build are proved for every 3-digit code, every LF-free line list of any length and content, both "
     "framing modes, every following stream and every reply sequence (Closed under the global context). The model is "
     "hand-written; its tie to the code is a differential correspondence (about 5*10^4 cases per quick run, bounded-exhaustive "
     "plus random, real bytes under whole/byte-by-byte/random segmentations, utf-8 and latin-1), so the assurance is a proof "
@@ -87,14 +87,20 @@ async def _feed_and_run(coro_fn, segments, make_stream):
             if task.done():
                 break
             await asyncio.sleep(0)
-    assert task.done(), "reader task did not finish"
     rest = bytes(reader._buffer) + b"".join(segments[fed:])
+    if not task.done():  # the (changed) code waits for something that never comes: an observation, not a crash
+        task.cancel()
+        for _ in range(3):
+            await asyncio.sleep(0)
+        return ("raised", "DidNotFinish", rest)
     try:
         return ("ok", task.result(), rest)
     except errors.StatusCodeError as e:
         return ("status", e, rest)
     except ConnectionResetError:
         return ("reset", None, rest)
+    except BaseException as e:  # whatever else the implementation raises is an observation (model: never)
+        return ("raised", type(e).__name__, rest)
 
 
 def impl_parse_response(loop, client, segments):
@@ -149,13 +155,18 @@ def expected_info(code, lines, list_mode):
 
 def canon_presult(r):
     kind, val, rest = r
-    if kind == "ok":
-        code, info = val
-        return [0, str(code), list(info)], rest
-    if kind == "status":
-        e = val
-        exp = e.expected_codes[0] if e.expected_codes else ""
-        return [1, str(exp), str(e.received_codes[0]), list(e.info)], rest
+    try:
+        if kind == "ok":
+            code, info = val
+            return [0, str(code), list(info)], rest
+        if kind == "status":
+            e = val
+            exp = e.expected_codes[0] if e.expected_codes else ""
+            return [1, str(exp), str(e.received_codes[0]), list(e.info)], rest
+    except Exception as e:  # a result of another shape is an observation too
+        return [3, "BadResult:" + type(e).__name__], rest
+    if kind == "raised":
+        return [3, val], rest
     return [2], rest
 
 
@@ -176,6 +187,197 @@ def encodable(s, enc):
         return False
 
 
+# ---- reply sequences and command() loops on ONE stream -------------------------------------------
+SEQ_CODES = ["150", "125", "226", "250", "426", "550", "200", "225", "120", "257"]
+MASKS_FULL = ["2xx", "1xx", "x26", "22x", "xxx", "x5x", "4xx", "2x6", "25x", "-26", "2 6", "x2x"]
+MASKS_SHORT = ["", "2", "22", "1", "x", "x2", "x5", "12", "25", "4"]
+MASKS_LONG = ["2260", "226x", "1xxx", "2xxxx", "150-"]
+MASKS_UNI = ["²26", "2٣x", "²xx", "x²"]
+
+
+def spec_match(mask, code):
+    """the property's mask rule, stated on its own: position by position over the common length,
+    a digit of the mask must be the same character in the code, anything else is a wildcard"""
+    for i in range(min(len(mask), len(code))):
+        if mask[i].isdigit() and mask[i] != code[i]:
+            return False
+    return True
+
+
+def gen_mask(rng, codes_in_play):
+    r = rng.random()
+    if r < 0.3:
+        return rng.choice(codes_in_play)
+    if r < 0.45:  # a code of the sequence with some positions turned into wildcards
+        return "".join(c if rng.random() < 0.6 else rng.choice("x-? ") for c in rng.choice(codes_in_play))
+    if r < 0.72:
+        return rng.choice(MASKS_FULL)
+    if r < 0.87:
+        return rng.choice(MASKS_SHORT)
+    if r < 0.94:
+        return rng.choice(MASKS_LONG)
+    return rng.choice(MASKS_UNI)
+
+
+def gen_masks(rng, codes_in_play, allow_empty=True):
+    n = rng.choice([0, 1, 1, 1, 2, 2, 3]) if allow_empty else rng.choice([1, 1, 2, 3])
+    return [gen_mask(rng, codes_in_play) for _ in range(n)]
+
+
+def gen_reply(rng, codes=SEQ_CODES, p_any=0.15):
+    """one reply in one of the three forms the server can emit"""
+    code = "".join(rng.choice("0123456789") for _ in range(3)) if rng.random() < p_any else rng.choice(codes)
+    shape = rng.choice(["single", "single", "multi", "multi", "list"])
+    n = 1 if shape == "single" else rng.choice([2, 2, 3, 4])
+    return [code, [gen_line(rng).replace("\n", "") for _ in range(n)], shape == "list"]
+
+
+def spec_commands(replies, cmds):
+    """what successive command(None, expected, wait) calls must return on the stream of `replies`:
+    each skips exactly the replies whose code matches a wait mask, returns the first that does not
+    (StatusCodeError iff expected masks are given and none matches it) and leaves the following ones.
+    -> (outcomes, index of the first reply left on the stream, statistics)"""
+    out, i, st = [], 0, {"skipped": 0, "skipped_also_expected": 0}
+    for expected, wait in cmds:
+        while i < len(replies) and any(spec_match(m, replies[i][0]) for m in wait):
+            st["skipped"] += 1
+            st["skipped_also_expected"] += any(spec_match(m, replies[i][0]) for m in expected)
+            i += 1
+        if i == len(replies):
+            out.append([2])  # the stream ends while waiting: ConnectionResetError
+            break
+        code, lines, lm = replies[i]
+        i += 1
+        if not expected or any(spec_match(m, code) for m in expected):
+            out.append([0, code, expected_info(code, lines, lm)])
+        else:
+            out.append([1])
+    return out, i, st
+
+
+def as_arg(masks):
+    """the two ways callers pass masks: a tuple, or (a single mask, as the library itself mostly does) a bare str"""
+    if len(masks) == 1 and len(masks[0]) % 2 == 1:
+        return masks[0]
+    return tuple(masks)
+
+
+def impl_commands(loop, client, cmds, segments):
+    """the real Client.command, called once per (expected, wait) on one stream"""
+
+    async def run(stream):
+        outs = []
+        for expected, wait in cmds:
+            try:
+                code, info = await client.command(None, as_arg(expected), as_arg(wait))
+                outs.append([0, str(code), list(info)])
+            except errors.StatusCodeError:
+                outs.append([1])
+            except ConnectionResetError:
+                outs.append([2])
+                break
+            except Exception as e:
+                outs.append([3, type(e).__name__])
+                break
+        return outs
+
+    def mk(reader):
+        client.stream = aioftp.StreamIO(reader, NullWriter())
+        return client.stream
+
+    kind, val, rest = loop.run_until_complete(_feed_and_run(run, segments, mk))
+    if kind != "ok":
+        return [[3, str(val)]], rest
+    return val, rest
+
+
+def impl_parse_all(loop, client, n_calls, segments):
+    """n_calls successive Client.parse_response calls on one stream"""
+
+    async def run(stream):
+        outs = []
+        for _ in range(n_calls):
+            try:
+                code, info = await client.parse_response()
+                outs.append([0, str(code), list(info)])
+            except errors.StatusCodeError as e:
+                outs.append([1, str(e.expected_codes[0]) if e.expected_codes else "", str(e.received_codes[0]) if e.received_codes else ""])
+            except ConnectionResetError:
+                outs.append([2])
+                break
+            except Exception as e:
+                outs.append([3, type(e).__name__])
+                break
+        return outs
+
+    def mk(reader):
+        client.stream = aioftp.StreamIO(reader, NullWriter())
+        return client.stream
+
+    kind, val, rest = loop.run_until_complete(_feed_and_run(run, segments, mk))
+    if kind != "ok":
+        return [[3, str(val)]], rest
+    return val, rest
+
+
+def model_cresults(mo, enc):
+    """decoded result of model fn 6 -> (outcomes, rest bytes after the last command or None)"""
+    outs, rest = [], None
+    for o in mo:
+        if o[0] == 0:
+            outs.append([0, sx.txt(o[1]), sx.txts(o[2])])
+            rest = sx.txt(o[3]).encode(enc)
+        elif o[0] == 1:
+            outs.append([1])
+            rest = sx.txt(o[1]).encode(enc)
+        else:
+            outs.append([o[0]])
+            rest = None
+    return outs, rest
+
+
+def model_presults(mo):
+    outs = []
+    for o in mo:
+        if o[0] == 0:
+            outs.append([0, sx.txt(o[1]), sx.txts(o[2])])
+        elif o[0] == 1:
+            outs.append([1, sx.txt(o[1]), sx.txt(o[2])])
+        else:
+            outs.append([2])
+    return outs
+
+
+def pick_segments(rng, data):
+    return rng.choice(list(segmentations(rng, data, 2)))
+
+
+def cut(data, lens):
+    segs, pos = [], 0
+    for n in lens:
+        segs.append(data[pos : pos + n])
+        pos += n
+    if pos < len(data):
+        segs.append(data[pos:])
+    return segs
+
+
+def encode_replies(loop, server, replies):
+    """wire of each reply through the real Server.write_response; None when the server raised"""
+    wires = []
+    for code, lines, lm in replies:
+        im = impl_write_response(loop, server, code, list(lines), lm)
+        if im[0] != "ok":
+            return None
+        wires.append(im[1])
+    return wires
+
+
+def item_wire_bad(code, other, head, body, bad):
+    """a multi-line reply whose closing line carries another code (no server emits it: built here)"""
+    return "".join(l + "\r\n" for l in [code + "-" + head] + [code + "-" + b for b in body] + [other + " " + bad])
+
+
 def correspondence(ctx, budget=None):
     rng = ctx.rng
     thorough = ctx.tier == "thorough"
@@ -186,8 +388,13 @@ def correspondence(ctx, budget=None):
         "(b) random replies from a metacharacter-biased alphabet incl. header-like lines, followed by a second reply, "
         "each decoded by the real client under whole / byte-by-byte / random segmentations in utf-8 and latin-1, "
         "(c) raw malformed reply streams (code mismatches, non-digit codes, EOF), (d) all mask x code pairs over a 7-symbol "
-        "alphabet up to length 3, (e) command() wait/expect loops, (f) server parse_command lines. A case is non-trivial when "
-        "distinct (hash of input); trivial = duplicate input."
+        "alphabet up to length 3, (e) successive command() calls on one stream of 1-5 replies (single-line, multi-line and "
+        "listing-style interleaved; bounded-exhaustive core over 3 codes x <=3 replies x 5 expected x 6 wait mask sets, plus random "
+        "mask sets that overlap, are shorter/longer than 3 characters or carry non-digit / non-ASCII-digit characters), judged by "
+        "spec_commands: first reply matching no wait mask returned, exactly the following ones left for the next command, "
+        "(f) server parse_command lines, (g) whole reply sequences (good replies interleaved with rejected ones and, for the "
+        "correspondence only, replies with non-3-digit codes) decoded by successive parse_response calls. A case is non-trivial "
+        "when distinct (hash of input); trivial = duplicate input."
     )
     servers = {e: aioftp.Server(encoding=e) for e in ("utf-8", "latin-1")}
     clients = {e: aioftp.Client(encoding=e) for e in ("utf-8", "latin-1")}
@@ -226,6 +433,11 @@ def correspondence(ctx, budget=None):
             mcanon = ("err", "ValueError") if mo[0] == -1 else ("ok", None)
             if mcanon != im:
                 ctx.disagree("write_response", [code, lines, lm], mo, im)
+            if len(lines) >= (2 if lm else 1):  # inside the property's domain: the server must emit it
+                ctx.violation(
+                    "the server raised instead of emitting a reply",
+                    {"key": "c06-encode-raised", "code": code, "lines": lines, "list": lm, "encoding": enc, "raised": im[1]},
+                )
             continue
         if mo[0] == -1 or sx.txt(mo[1]).encode(enc) != im[1]:
             ctx.disagree("write_response", [code, lines, lm, enc], str(mo)[:300], repr(im[1])[:300])
@@ -331,52 +543,155 @@ def correspondence(ctx, budget=None):
     mo = ctx.model([(2, [m, c]) for m, c in pairs])
     for (m, c), o in zip(pairs, mo):
         ctx.case(("match", m, c))
-        im = aioftp.Code(c).matches(m)
+        try:
+            im = aioftp.Code(c).matches(m)
+        except Exception as e:
+            im = "raised " + type(e).__name__
         if bool(o) != im:
             ctx.disagree("matches", [m, c], o, im)
-        spec = all((not mm.isdigit()) or mm == cc for mm, cc in zip(m, c))
+        spec = spec_match(m, c)
         if im != spec:
             ctx.violation("Code.matches differs from the digit-for-digit rule", {"key": "c06-matches", "mask": m, "code": c, "got": im})
     ctx.count("matches_pairs", len(pairs))
     ctx.extra["exhaustive_matches"] = thorough
 
-    # ---------------- (e) command() wait/expect loop over reply sequences
+    # ---------------- (e) command() wait/expect loops: successive commands on one stream of replies
+    # (all three reply forms interleaved; masks overlapping, shorter/longer than 3, with non-digit and
+    # non-ASCII-digit characters).  Oracle = spec_commands, stated without the model.
     cmd_cases = []
-    for _ in range(n_rand // 4):
-        nrep = rng.randint(1, 4)
-        wire = ""
-        for _ in range(nrep):
-            code = rng.choice(["150", "125", "226", "250", "426", "550", "200"])
-            lines = [gen_line(rng).replace("\n", "") for _ in range(rng.choice([1, 1, 2]))]
-            wire += servers["utf-8"].encoding and "".join(
-                l + "\r\n" for l in ([code + "-" + x for x in lines[:-1]] + [code + " " + lines[-1]])
-            )
-        expected = rng.choice([[], ["2xx"], ["226"], ["2xx", "1xx"], ["250", "55x"]])
-        wait = rng.choice([[], ["1xx"], ["426"], ["1xx", "426"]])
-        if not expected and not wait:
-            wait = ["1xx"]
-        cmd_cases.append((expected, wait, wire))
-    mo = ctx.model([(3, [e, w, s]) for e, w, s in cmd_cases])
-    for (e, w, s), o in zip(cmd_cases, mo):
-        data = s.encode("utf-8")
-        ctx.case(("cmd", tuple(e), tuple(w), s))
+    # bounded-exhaustive core: every sequence of <= 3 single-line replies over 3 codes x mask sets
+    ex_codes = ["226", "250", "150"]
+    ex_expected = [[], ["2xx"], ["226"], ["250", "22x"], ["1xx"]]
+    ex_wait = [[], ["1xx"], ["226"], ["x26"], ["2xx"], ["15", "2x6"]]
+    for n in (1, 2, 3):
+        for cs in itertools.product(ex_codes, repeat=n):
+            for e in ex_expected:
+                for w in ex_wait:
+                    if e or w:
+                        cmd_cases.append(([[c, ["r%d" % i], False] for i, c in enumerate(cs)], [[e, w], [["xxx"], []]], "utf-8", None))
+    ctx.count("command_exhaustive", len(cmd_cases))
+    n_cmd = n_rand if thorough else max(n_rand // 2, 1200)
+    for _ in range(n_cmd):
+        pool = rng.sample(SEQ_CODES, rng.choice([2, 3, 4]))
+        replies = [gen_reply(rng, pool) for _ in range(rng.randint(1, 5))]
+        in_play = [r[0] for r in replies]
+        cmds = []
+        for k in range(rng.choice([1, 2, 2, 3])):
+            if k and rng.random() < 0.4:
+                cmds.append([["xxx"], []])  # plain "read the next reply"
+                continue
+            e, w = gen_masks(rng, in_play), gen_masks(rng, in_play)
+            if rng.random() < 0.8:  # a wait mask without any digit skips everything: keep those rare
+                w = [m for m in w if any(ch.isdigit() for ch in m)]
+            if not e and not w:
+                w = [rng.choice(in_play + MASKS_FULL[:3])]
+            cmds.append([e, w])
+        enc = rng.choice(["utf-8", "latin-1"])
+        if not all(encodable(l, enc) for r in replies for l in r[1]):
+            enc = "utf-8"
+        cmd_cases.append((replies, cmds, enc, rng.random()))
+    ctx.count("command_random", n_cmd)
+    cmd_jobs = []
+    for replies, cmds, enc, r in cmd_cases:
+        wires = encode_replies(loop, servers[enc], replies)
+        if wires is None:  # the server raised: judged in stream (a)/(b)
+            ctx.count("command_server_raised")
+            continue
+        cmd_jobs.append((replies, cmds, enc, wires, r))
+    mo = ctx.model([(6, [cmds, b"".join(wires).decode(enc)]) for _, cmds, enc, wires, _ in cmd_jobs])
+    for (replies, cmds, enc, wires, r), o in zip(cmd_jobs, mo):
+        data = b"".join(wires)
+        segs = [data] if r is None else pick_segments(rng, data)
+        ctx.case(("cmd", repr(cmds), data, tuple(map(len, segs))))
         ctx.traces_impl += 1
-        kind, val, rest = impl_command(loop, clients["utf-8"], e, w, list(segmentations(rng, data, 1))[-1])
-        if kind == "ok":
-            ic = [0, str(val[0]), list(val[1]), rest]
-        elif kind == "status":
-            ic = [1, rest]
-        else:
-            ic = [2]
-        if o[0] == 0:
-            mc = [0, sx.txt(o[1]), sx.txts(o[2]), sx.txt(o[3]).encode("utf-8")]
-        elif o[0] == 1:
-            mc = [1, sx.txt(o[1]).encode("utf-8")]
-        else:
-            mc = [o[0]]
-        if mc != ic:
-            ctx.disagree("command", [e, w, s], str(mc), str(ic))
-    ctx.count("command_loops", len(cmd_cases))
+        got, rest = impl_commands(loop, clients[enc], cmds, segs)
+        m_out, m_rest = model_cresults(o, enc)
+        if got != m_out or (m_rest is not None and rest != m_rest):
+            ctx.disagree("command", {"commands": cmds, "wire": data.decode(enc), "segs": list(map(len, segs))}, str([m_out, m_rest]), str([got, rest]))
+        want, left, st = spec_commands(replies, cmds)
+        want_rest = b"".join(wires[left:])
+        ctx.count("command_first_" + ["ok", "statuserror", "reset"][want[0][0]])
+        ctx.count("command_replies_skipped", st["skipped"])
+        ctx.count("command_skipped_reply_also_matched_expected", st["skipped_also_expected"])
+        ctx.count("command_second_call_reached", len(want) > 1)
+        ctx.count("command_replies_left_after_last_call", left < len(replies))
+        if got != want or rest != want_rest:
+            ctx.violation(
+                "command() did not return the first reply matching no wait mask / did not leave exactly the following replies",
+                {"key": "c06-command-loop", "replies": replies, "commands": cmds, "encoding": enc, "segments": list(map(len, segs)),
+                 "wire": data.decode(enc), "got": got, "expected": want, "rest": repr(rest), "expected_rest": repr(want_rest)},
+            )
+        if len(xcheck) < 140 and r is not None:
+            xcheck.append((6, [cmds, data.decode(enc)], o))
+    ctx.sample({"stream": "command", "commands": cmd_jobs[-1][1], "wire": b"".join(cmd_jobs[-1][3]).decode(cmd_jobs[-1][2])})
+
+    # ---------------- (g) whole reply sequences decoded by successive parse_response calls: replies of
+    # all three forms interleaved with rejected ones (closing line of another code) and, for the
+    # correspondence only, replies whose code is not three ASCII digits
+    seq_cases = []
+    n_seq = n_rand if thorough else max(n_rand // 2, 1000)
+    odd_codes = ["²26", "2x6", "12", "٣٣٣", "2260", " 26", "-50", "abc", ""]
+    for _ in range(n_seq):
+        items, in_domain = [], True
+        for _ in range(rng.randint(1, 5)):
+            r = rng.random()
+            if r < 0.7:
+                items.append(["good"] + gen_reply(rng, CODES, 0.3))
+            elif r < 0.93:
+                code, other = rng.sample(CODES, 2) if rng.random() < 0.7 else ["".join(rng.choice("0123456789") for _ in range(3)) for _ in range(2)]
+                if code == other:
+                    other = "%03d" % ((int(code) + 1) % 1000)
+                items.append(["bad", code, other, gen_line(rng).replace("\n", ""),
+                              [gen_line(rng).replace("\n", "") for _ in range(rng.choice([0, 0, 1, 2]))], gen_line(rng).replace("\n", "")])
+            else:
+                rp = gen_reply(rng)
+                rp[0] = rng.choice(odd_codes)
+                items.append(["good"] + rp)
+                in_domain = False
+        enc = rng.choice(["utf-8", "latin-1"])
+        if not all(encodable(x, enc) for it in items for x in ([it[1]] + it[2] if it[0] == "good" else [it[1], it[2], it[3], it[5]] + it[4])):
+            enc = "utf-8"
+        seq_cases.append((items, enc, in_domain))
+    seq_jobs = []
+    for items, enc, in_domain in seq_cases:
+        wires = []
+        for it in items:
+            if it[0] == "good":
+                im = impl_write_response(loop, servers[enc], it[1], list(it[2]), it[3])
+                if im[0] != "ok":
+                    wires = None
+                    break
+                wires.append(im[1])
+            else:
+                wires.append(item_wire_bad(*it[1:]).encode(enc))
+        if wires is None:
+            ctx.count("sequence_server_raised")
+            continue
+        seq_jobs.append((items, enc, in_domain, wires))
+    mo = ctx.model([(5, [b"".join(w).decode(enc)]) for _, enc, _, w in seq_jobs])
+    for (items, enc, in_domain, wires), o in zip(seq_jobs, mo):
+        data = b"".join(wires)
+        segs = pick_segments(rng, data)
+        ctx.case(("seq", data, tuple(map(len, segs))))
+        ctx.traces_impl += 1
+        got, rest = impl_parse_all(loop, clients[enc], len(items) + 1, segs)
+        m_out = model_presults(o)
+        if got != m_out[: len(items) + 1]:
+            ctx.disagree("parse_sequence", {"wire": data.decode(enc), "segs": list(map(len, segs))}, str(m_out), str(got))
+        ctx.count("sequence_in_domain" if in_domain else "sequence_odd_codes")
+        ctx.count("sequence_items_good", sum(it[0] == "good" for it in items))
+        ctx.count("sequence_items_rejected", sum(it[0] == "bad" for it in items))
+        if in_domain:
+            want = [[0, it[1], expected_info(it[1], it[2], it[3])] if it[0] == "good" else [1, it[1], it[2]] for it in items] + [[2]]
+            if got != want or rest != b"":
+                ctx.violation(
+                    "a reply sequence was not decoded reply by reply (a reply mis-framed, or one desynchronised a later one)",
+                    {"key": "c06-sequence", "items": items, "encoding": enc, "segments": list(map(len, segs)),
+                     "wire": data.decode(enc), "got": got, "expected": want, "rest": repr(rest)},
+                )
+        if len(xcheck) < 160:
+            xcheck.append((5, [data.decode(enc)], o))
+    ctx.sample({"stream": "sequence", "wire": b"".join(seq_jobs[-1][3]).decode(seq_jobs[-1][1])})
 
     # ---------------- (f) server parse_command
     pc_cases = []
@@ -444,7 +759,53 @@ def replay(ctx, data):
         print("decoded:", got, "rest:", rest)
         return got == [0, r["code"], expected_info(r["code"], r["lines"], r["list"])] and rest == b"226 next\r\n"
     if r.get("key") == "c06-matches":
-        im = aioftp.Code(r["code"]).matches(r["mask"])
-        return im == all((not mm.isdigit()) or mm == cc for mm, cc in zip(r["mask"], r["code"]))
+        try:
+            im = aioftp.Code(r["code"]).matches(r["mask"])
+        except Exception as e:
+            im = "raised " + type(e).__name__
+        print("matches:", im)
+        return im == spec_match(r["mask"], r["code"])
+    if r.get("key") == "c06-encode-raised":
+        im = impl_write_response(loop, aioftp.Server(encoding=enc), r["code"], r["lines"], r["list"])
+        print("write_response:", im)
+        return im[0] == "ok"
+    if r.get("key") == "c06-command-loop":
+        wires = encode_replies(loop, aioftp.Server(encoding=enc), r["replies"])
+        if wires is None:
+            print("the server raised while encoding the replies")
+            return False
+        data_b = b"".join(wires)
+        got, rest = impl_commands(loop, aioftp.Client(encoding=enc), r["commands"], cut(data_b, r["segments"]))
+        want, left, _ = spec_commands(r["replies"], r["commands"])
+        print("wire:", data_b, "\ncommands:", r["commands"], "\ngot:     ", got, "rest:", rest, "\nexpected:", want, "rest:", b"".join(wires[left:]))
+        return got == want and rest == b"".join(wires[left:])
+    if r.get("key") == "c06-sequence":
+        server = aioftp.Server(encoding=enc)
+        wires = []
+        for it in r["items"]:
+            if it[0] == "good":
+                im = impl_write_response(loop, server, it[1], list(it[2]), it[3])
+                if im[0] != "ok":
+                    print("the server raised while encoding", it)
+                    return False
+                wires.append(im[1])
+            else:
+                wires.append(item_wire_bad(*it[1:]).encode(enc))
+        data_b = b"".join(wires)
+        got, rest = impl_parse_all(loop, aioftp.Client(encoding=enc), len(r["items"]) + 1, cut(data_b, r["segments"]))
+        want = [[0, it[1], expected_info(it[1], it[2], it[3])] if it[0] == "good" else [1, it[1], it[2]] for it in r["items"]] + [[2]]
+        print("wire:", data_b, "\ngot:     ", got, "rest:", rest, "\nexpected:", want)
+        return got == want and rest == b""
+    if r.get("key") == "c06-parse-command":
+        kind, val, rest = impl_parse_command(loop, aioftp.Server(), [(r["verb"] + " " + r["arg"] + "\r\n").encode("utf-8")])
+        print("parsed:", kind, val)
+        return kind == "ok" and val == (r["verb"].lower(), r["arg"])
+    if r.get("key") == "c06-mismatch-accepted":
+        got, rest = canon_presult(impl_parse_response(loop, aioftp.Client(encoding=enc), [r["wire"].encode(enc)]))
+        print("decoded:", got, "rest:", rest)
+        if got[0] != 0:
+            return True
+        consumed = r["wire"].encode(enc)[: len(r["wire"].encode(enc)) - len(rest)].decode(enc)
+        return not any(ln.rstrip()[:3].isdigit() and ln.rstrip()[:3] != got[1] for ln in consumed.split("\n"))
     print("replay payload:", data)
     return False
